@@ -308,7 +308,7 @@ type e2ePub struct {
 
 var e2ePayloads = [][]string{
 	{"x"}, {"line one\nline two"}, {"a\r\nb", "c"}, {"id: 999"}, {"data: y\n\nid: 7"}, {""}, {":not a comment"}, {"retry: 1"},
-	{"  leading space"}, {"é\xffz"}, {"\n"}, {"trailing\r"},
+	{"  leading space"}, {"é\xffz"}, {"\n"}, {"trailing\r"}, {"ends with blank lines\n\n"}, {"two strings, the last empty", ""}, {"\n\n\n"},
 }
 
 func e2ePayload(kind, seq int) (typ string, data []string) {
@@ -335,7 +335,12 @@ func e2ePayload(kind, seq int) (typ string, data []string) {
 		}
 		data = append(data, string(long))
 	}
-	data = append(data, fmt.Sprintf("#%d", seq))
+	// the sequence mark: last, or first where the payload's own end is the interesting part
+	if k := kind % len(e2ePayloads); k >= 10 && kind < 100 {
+		data = append([]string{fmt.Sprintf("#%d", seq)}, data...)
+	} else {
+		data = append(data, fmt.Sprintf("#%d", seq))
+	}
 	return
 }
 
@@ -693,7 +698,7 @@ func genE2EScenario(r *rng.R, thorough bool) val.V {
 	}
 	steps := []val.V{}
 	pub := func() {
-		pk := r.Intn(12)
+		pk := r.Intn(len(e2ePayloads))
 		if r.Intn(4) == 0 {
 			pk = 100 + r.Intn(50)
 		}
